@@ -204,8 +204,14 @@ fn check_covered(case: &Case, st: &mut Stats) -> CheckResult {
     let keep = keep.min(a);
     let mut d = String::from("<");
     let mut cuts = vec![1usize];
-    let names = ["div", "span", "section", "x-el"];
+    let long_custom = format!("x-{}", "n".repeat(300));
+    let names: [&str; 4] = if sel >= 4 { ["div", long_custom.as_str(), "section", "x-el"] } else { ["div", "span", "section", "x-el"] };
     let mut open: Vec<&str> = vec![];
+    // bytes of names the 64-bit name hash cannot represent (`-`, longer than 12 characters): the
+    // open-element stack owns a copy of each; per write index
+    let unhashable = |n: &str| if n.len() > 12 || n.bytes().any(|b| !b.is_ascii_alphanumeric()) { n.len() as isize } else { 0 };
+    let mut owned_now = 0isize;
+    let mut owned_at: Vec<isize> = vec![0];
     let mut first = true;
     for i in 0..a {
         let n = names[i % names.len()];
@@ -217,16 +223,22 @@ fn check_covered(case: &Case, st: &mut Stats) -> CheckResult {
         }
         open.push(n);
         cuts.push(d.len());
+        owned_now += unhashable(n);
+        owned_at.push(owned_now);
     }
     while open.len() > keep {
         let n = open.pop().unwrap();
         d.push_str(&format!("</{n}>"));
         cuts.push(d.len());
+        owned_now -= unhashable(n);
+        owned_at.push(owned_now);
     }
     for i in 0..b {
         let n = names[(i * 3 + 1) % names.len()];
         d.push_str(&format!("<{n} id=i{i}>"));
         cuts.push(d.len());
+        owned_now += unhashable(n);
+        owned_at.push(owned_now);
     }
     let mut sc = Scenario::new(d.into_bytes());
     sc.handlers = match sel {
@@ -254,7 +266,17 @@ fn check_covered(case: &Case, st: &mut Stats) -> CheckResult {
         let real = live[i] - live[0];
         let accounted = usage[i] as isize - usage[0] as isize;
         worst = worst.max(real - accounted);
-        if real - accounted > COVERED_SLACK {
+        let names_owned = owned_at.get(i).copied().unwrap_or(0);
+        if real - accounted > COVERED_SLACK && real - accounted <= COVERED_SLACK + names_owned && std::env::var_os("VERIF_COVERED_TRACE").is_none() {
+            // known finding: the copies of unhashable element names (custom elements, names longer
+            // than 12 characters) owned by the open-element stack are not charged to the limiter
+            return Ok(Err(Fail::known(
+                "C10.accounted",
+                format!("nesting wave {}: after write #{i} the live heap has grown by {real} bytes, the accounted usage by {accounted}; the difference is within the {names_owned} bytes of unhashable element names owned by the open-element stack", case.mode),
+                "unhashable_open_element_names_unaccounted",
+            )));
+        }
+        if real - accounted > COVERED_SLACK && std::env::var_os("VERIF_COVERED_TRACE").is_none() {
             return Ok(Err(Fail::new(
                 "C10.accounted",
                 format!(
@@ -262,6 +284,9 @@ fn check_covered(case: &Case, st: &mut Stats) -> CheckResult {
                 ),
             )));
         }
+    }
+    if std::env::var_os("VERIF_COVERED_TRACE").is_some() {
+        eprintln!("covered {} worst_uncovered={worst}", case.mode);
     }
     st.bump("c10.accounted_covers_heap");
     st.add("c10.accounted_covers_heap.worst_uncovered_bytes_sum", worst.max(0) as u64);
@@ -346,7 +371,7 @@ impl Property for C10 {
             let keep = rng.range(0, a / 2);
             let b = rng.range(a / 4, a + a / 2);
             let mut c = Case::of(Scenario::new(vec![]));
-            c.mode = format!("covered:{a}:{keep}:{b}:{}", rng.below(4));
+            c.mode = format!("covered:{a}:{keep}:{b}:{}", rng.below(5));
             ex.stats.bump("c10.covered_measurements");
             ex.check(c);
         }
